@@ -232,6 +232,7 @@ type TableCfg struct {
 	Interval   int // GameContinueInterval
 	Deck       string
 	Join       []pt.JoinPlayer // CreateTable join players
+	ID         string
 }
 
 type Snap struct {
@@ -264,7 +265,9 @@ type TD struct {
 	finished  map[string]bool // settlement-finish signals sent for finGame
 	finGame   int
 	// hooks for monitors
-	onSnap func(s *Snap)
+	onSnap     func(s *Snap)
+	firstSetup func(gc int, parts map[string]int)
+	memos      map[string]string
 }
 
 func cloneTable(t *pt.Table) (*pt.Table, string) {
@@ -284,12 +287,10 @@ func defaultCfg(seats int) TableCfg {
 		Blind: pt.TableBlindState{Level: 1, Ante: 0, Dealer: 0, SB: 1, BB: 2}, Interval: 1, Deck: "asc"}
 }
 
-func newTD(env *vrt.Env, cfg TableCfg) (*TD, error) {
-	td := &TD{env: env, cfg: cfg, be: newBackend(cfg.Deck), responded: map[string]bool{}, finished: map[string]bool{}}
-	opts := pt.NewTableEngineOptions()
-	opts.GameContinueInterval = cfg.Interval
-	td.te = pt.NewTableEngine(opts, pt.WithGameBackend(td.be))
-	td.te.OnTableUpdated(func(t *pt.Table) {
+func (td *TD) callbacks() *pt.TableEngineCallbacks {
+	env := td.env
+	cb := pt.NewTableEngineCallbacks()
+	cb.OnTableUpdated = func(t *pt.Table) {
 		c, js := cloneTable(t)
 		td.seq++
 		s := &Snap{T: c, JSON: js, VTime: env.Now(), Seq: td.seq}
@@ -297,34 +298,85 @@ func newTD(env *vrt.Env, cfg TableCfg) (*TD, error) {
 		if td.onSnap != nil {
 			td.onSnap(s)
 		}
-	})
-	td.te.OnTableErrorUpdated(func(t *pt.Table, err error) {
+	}
+	cb.OnTableErrorUpdated = func(t *pt.Table, err error) {
 		td.errs = append(td.errs, err.Error())
-	})
-	td.te.OnTableStateUpdated(func(ev string, t *pt.Table) {
+	}
+	cb.OnTableStateUpdated = func(ev string, t *pt.Table) {
 		td.stateEvs = append(td.stateEvs, ev+":"+string(t.State.Status))
-	})
-	td.te.OnGamePlayerActionUpdated(func(a pt.TablePlayerGameAction) {
+	}
+	cb.OnGamePlayerActionUpdated = func(a pt.TablePlayerGameAction) {
 		td.seq++
 		td.actions = append(td.actions, ActionEv{A: a, Seq: td.seq})
-	})
-	td.te.OnAutoGameOpenEnd(func(c, t string) { td.autoEnd++ })
-	td.te.OnReadyOpenFirstTableGame(func(c, t string, gameCount int, players []*pt.TablePlayerState) {
+	}
+	cb.OnAutoGameOpenEnd = func(c, t string) { td.autoEnd++ }
+	cb.OnReadyOpenFirstTableGame = func(c, t string, gameCount int, players []*pt.TablePlayerState) {
 		parts := map[string]int{}
 		for i, p := range players {
 			parts[p.PlayerID] = i
 		}
-		td.te.SetUpTableGame(gameCount, parts)
-	})
-	setting := pt.TableSetting{
-		TableID: "T1",
+		td.firstSetup(gameCount, parts)
+	}
+	return cb
+}
+
+func tableSetting(cfg TableCfg) pt.TableSetting {
+	id := cfg.ID
+	if id == "" {
+		id = "T1"
+	}
+	return pt.TableSetting{
+		TableID: id,
 		Meta: pt.TableMeta{CompetitionID: "C1", Rule: cfg.Rule, Mode: cfg.Mode, MaxDuration: 1 << 28, TableMaxSeatCount: cfg.Seats,
 			TableMinPlayerCount: cfg.MinPlayers, MinChipUnit: 1, ActionTime: cfg.ActionTime},
 		Blind:       cfg.Blind,
 		JoinPlayers: cfg.Join,
 	}
-	_, err := td.te.CreateTable(setting)
+}
+
+func newTD(env *vrt.Env, cfg TableCfg) (*TD, error) {
+	td := &TD{env: env, cfg: cfg, be: newBackend(cfg.Deck), responded: map[string]bool{}, finished: map[string]bool{}}
+	opts := pt.NewTableEngineOptions()
+	opts.GameContinueInterval = cfg.Interval
+	td.te = pt.NewTableEngine(opts, pt.WithGameBackend(td.be))
+	cb := td.callbacks()
+	td.te.OnTableUpdated(cb.OnTableUpdated)
+	td.te.OnTableErrorUpdated(cb.OnTableErrorUpdated)
+	td.te.OnTableStateUpdated(cb.OnTableStateUpdated)
+	td.te.OnGamePlayerActionUpdated(cb.OnGamePlayerActionUpdated)
+	td.te.OnAutoGameOpenEnd(cb.OnAutoGameOpenEnd)
+	td.te.OnReadyOpenFirstTableGame(cb.OnReadyOpenFirstTableGame)
+	td.firstSetup = func(gc int, parts map[string]int) { td.te.SetUpTableGame(gc, parts) }
+	_, err := td.te.CreateTable(tableSetting(cfg))
 	return td, err
+}
+
+// newTDManaged creates the table through a Manager (which installs its own native backend).
+func newTDManaged(env *vrt.Env, cfg TableCfg, m pt.Manager) (*TD, error) {
+	td := &TD{env: env, cfg: cfg, be: newBackend(cfg.Deck), responded: map[string]bool{}, finished: map[string]bool{}}
+	opts := pt.NewTableEngineOptions()
+	opts.GameContinueInterval = cfg.Interval
+	setting := tableSetting(cfg)
+	td.firstSetup = func(gc int, parts map[string]int) { m.SetUpTableGame(setting.TableID, gc, parts) }
+	_, err := m.CreateTable(opts, td.callbacks(), setting)
+	if err != nil {
+		return td, err
+	}
+	td.te, err = m.GetTableEngine(setting.TableID)
+	return td, err
+}
+
+// memo caches a value computed once per table driver.
+func (td *TD) memo(key string, f func() string) string {
+	if td.memos == nil {
+		td.memos = map[string]string{}
+	}
+	if v, ok := td.memos[key]; ok {
+		return v
+	}
+	v := f()
+	td.memos[key] = v
+	return v
 }
 
 func (td *TD) logf(f string, a ...any) { td.log = append(td.log, fmt.Sprintf(f, a...)) }
